@@ -81,18 +81,22 @@ def len_field(n):
 #   size = the raw size field (lock: number of lock BITS, memory: number of bytes; 0 encodes 256),
 #   k = BytesPerPage exponent (None: the smallest that can express frm), hi = upper nibble of the third value byte
 #       (BytesLockedPerLockBit for a lock control TLV, RFU for a memory control TLV).
+#   An optional sixth element pa = the PageAddr nibble: frm = pa * 2**k + ByteOffset with ByteOffset 0..15, which
+#   may be >= 2**k (a non-canonical but valid encoding of the same address; None: the canonical one, pa = frm >> k).
 #   The short form [t, frm, nbytes] (whole bytes) is still accepted.
 def norm_ctl(c):
     c = list(c)
     if len(c) == 3:
         t, frm, n = c
-        return [t, frm, (n * 8 if t == 1 else n) & 0xFF, None, 3]
+        return [t, frm, (n * 8 if t == 1 else n) & 0xFF, None, 3, None]
+    if len(c) == 5:
+        return c + [None]
     return c
 
 
 def ctl_nbytes(c):
     """number of reserved bytes a control TLV announces (NFC Forum T1T/T2T: lock bits are rounded UP to bytes)"""
-    t, frm, size, k, hi = norm_ctl(c)
+    t, frm, size, k, hi, pa = norm_ctl(c)
     n = size if size > 0 else 256
     return (n + 7) // 8 if t == 1 else n
 
@@ -107,17 +111,27 @@ def valid_exps(frm):
     return [k for k in range(0, 16) if (frm >> k) <= 15 and frm - ((frm >> k) << k) <= 15]
 
 
+def encodings(frm):
+    """the WHOLE encoding space of an address: every (k, PageAddr, ByteOffset) with PageAddr * 2**k + ByteOffset = frm,
+    both nibbles 0..15, k 0..15 - including ByteOffset >= 2**k"""
+    return [(k, pa, frm - (pa << k)) for k in range(0, 16) for pa in range(0, 16) if 0 <= frm - (pa << k) <= 15]
+
+
 def ctl_tlv(c):
-    t, frm, size, k, hi = norm_ctl(c)
+    t, frm, size, k, hi, pa = norm_ctl(c)
     ks = valid_exps(frm)
-    if not ks:
-        raise ValueError("range start not representable")
     if k is None:
+        if not ks:
+            raise ValueError("range start not representable")
         k = ks[0]
-    if k not in ks:
-        raise ValueError("exponent cannot express the address")
-    offs = frm - ((frm >> k) << k)
-    return [t, 3, ((frm >> k) << 4) | offs, size & 0xFF, ((hi & 0x0F) << 4) | k]
+    if pa is None:
+        if k not in ks:
+            raise ValueError("exponent cannot express the address")
+        pa = frm >> k
+    offs = frm - (pa << k)
+    if not (0 <= pa <= 15 and 0 <= offs <= 15):
+        raise ValueError("not an encoding of the address")
+    return [t, 3, (pa << 4) | offs, size & 0xFF, ((hi & 0x0F) << 4) | k]
 
 
 def representable(frm):
@@ -468,6 +482,8 @@ def layouts_c01(rnd, quick):
         out.append(t1_desc(False, 120, 0x00, pad, (), rnd.choice([0, 9])))
     out.append(t1_desc(False, 120, 0x00, 2, [vary([2, 60, 4], 1)], 6))
     out.append(t1_desc(False, 120, 0x00, 1, [vary([1, 56, 12, None, 3], 2)], 6))
+    out.append(t1_desc(False, 120, 0x00, 0, [[2, 52, 4, 3, 0, 5]], 6))                 # 02 03 5C 04 03: PageAddr 5, ByteOffset 12 >= 8
+    out.append(t2_desc(12, 1, [[1, 60, 12] + list(noncanonical(60)[0][:1]) + [9, noncanonical(60)[0][1]]], 6))
     out.append(t1_desc(False, 120, 0x00, 0, [vary([2, 96, 0, None, 3], 0)], 6))       # 256 bytes: the tail and beyond
     # Type 1 dynamic
     out.append(t1_desc(True, 512, 0x4C, 0, (), 12, canonical512=True))
@@ -675,11 +691,18 @@ def cases_c02(seed, quick):
 def vary(c, i):
     """give a control TLV descriptor one of the possible position encodings (BytesPerPage exponent) and an
     arbitrary upper nibble (BytesLockedPerLockBit / RFU); i selects deterministically"""
-    t, frm, size, k, hi = norm_ctl(c)
-    ks = valid_exps(frm)
-    if not ks:
+    t, frm, size, k, hi, pa = norm_ctl(c)
+    es = encodings(frm)
+    if not es:
         raise ValueError("not representable")
-    return [t, frm, size, ks[i % len(ks)], (3 + 5 * i) % 16]
+    k, pa, bo = es[(i * 7) % len(es)]
+    return [t, frm, size, k, (3 + 5 * i) % 16, pa]
+
+
+def noncanonical(frm):
+    """encodings with ByteOffset >= 2**k, those where ByteOffset and the shifted PageAddr share a bit first"""
+    es = [(k, pa, bo) for k, pa, bo in encodings(frm) if bo >= (1 << k) and pa > 0]
+    return sorted(es, key=lambda e: (0 if ((e[1] << e[0]) & e[2]) else 1, e[0], e[1]))
 
 
 def layouts_c03(rnd, quick):
@@ -718,9 +741,11 @@ def layouts_c03(rnd, quick):
             try:
                 out.append((name, t2_desc(cc2, pad, [vary(c, vi)], 12, "rnd")))
                 if not quick:          # the same range with every possible BytesPerPage exponent
-                    for k in valid_exps(c[1])[1:]:
-                        cn = norm_ctl(c)
-                        out.append((name + "-k%d" % k, t2_desc(cc2, pad, [[cn[0], cn[1], cn[2], k, (k * 7) % 16]], 12, "rnd")))
+                    cn = norm_ctl(c)
+                    for k, pa, bo in encodings(cn[1]):
+                        if k > 9 and pa == 0:
+                            continue           # PageAddr 0: the exponent does not matter, a few suffice
+                        out.append((name + "-k%d.%d" % (k, pa), t2_desc(cc2, pad, [[cn[0], cn[1], cn[2], k, (k * 7) % 16, pa]], 12, "rnd")))
             except ValueError:
                 continue
         try:
@@ -739,6 +764,34 @@ def layouts_c03(rnd, quick):
     out.append(("t1s-lock-12bit", t1_desc(False, 120, 0x00, 0, [vary([1, 48, 12, None, 3], 2)], 10)))
     out.append(("t1s-lock-9bit", t1_desc(False, 120, 0x00, 2, [vary([1, 62, 9, None, 3], 0)], 10)))
     out.append(("t1s-mem-256", t1_desc(False, 120, 0x00, 1, [vary([2, 90, 0, None, 3], 1)], 10)))
+    # non-canonical position encodings: ByteOffset >= 2**BytesPerPage (PageAddr * 2**k + ByteOffset by the specifications),
+    # those first where the offset shares a bit with the shifted page address
+    def nc(t, frm, size, which=0):
+        es = noncanonical(frm)
+        k, pa, bo = es[which % len(es)]
+        return [t, frm, size, k, (7 * which + 3) % 16, pa]
+    out.append(("t1s-nc-5C", t1_desc(False, 120, 0x00, 0, [[2, 52, 4, 3, 0, 5]], 10)))           # 02 03 5C 04 03 = address 52
+    out.append(("t1s-nc-lock", t1_desc(False, 120, 0x00, 1, [nc(1, 60, 12)], 10)))
+    out.append(("t1d-nc-mem", t1_desc(True, 512, 0x00, 2, [nc(2, 130, 5)], 30)))
+    out.append(("t1d-nc-lock", t1_desc(True, 256, 0x00, 0, [nc(1, 133, 9, 1)], 30)))
+    out.append(("t2-nc-mem", t2_desc(12, 1, [nc(2, 52, 4)], 12, "rnd")))
+    out.append(("t2-nc-lock", t2_desc(19, 2, [nc(1, 60, 12, 1)], 12, "rnd")))
+    out.append(("t2-nc-mem-hi", t2_desc(0x3E, 0, [nc(2, 100, 3, 2)], 12, "rnd")))
+    if not quick:
+        for frm in (44, 52, 60, 75, 92):
+            for w, (k, pa, bo) in enumerate(noncanonical(frm)):
+                for t, size in ((2, 1), (2, 4), (1, 12), (1, 1)):
+                    hi = (w * 3 + t) % 16
+                    out.append(("t1s-nc%d.%d.%d.%d-k" % (frm, k, pa, t * 100 + size), t1_desc(False, 120, 0x00, w % 3, [[t, frm, size, k, hi, pa]], 8)))
+                    out.append(("t2-nc%d.%d.%d.%d-k" % (frm, k, pa, t * 100 + size), t2_desc(12, w % 3, [[t, frm, size, k, hi, pa]], 8, "rnd")))
+                    e2 = noncanonical(128 + frm % 8)
+                    if e2:
+                        k2, pa2, _ = e2[w % len(e2)]
+                        out.append(("t1d-nc%d.%d.%d.%d.%d-k" % (128 + frm % 8, k2, pa2, t * 100 + size, w),
+                                    t1_desc(True, 256, 0x00, w % 3, [[t, 128 + frm % 8, size, k2, hi, pa2]], 8)))
+        for frm, size in ((100, 0), (130, 0), (135, 255)):          # size 0 (= 256) / max with non-canonical positions
+            for w, (k, pa, bo) in enumerate(noncanonical(frm)[:4]):
+                out.append(("t1d-ncmax%d.%d.%d-k" % (frm, k, pa), t1_desc(True, 512, 0x00, 1, [[2, frm, size, k, 3, pa]], 8)))
     out.append(("topaz512", t1_desc(True, 512, 0x4C, 0, (), 200, canonical512=True)))
     out.append(("t1d-near-rsvd", t1_desc(True, 256, 0x00, 80, (), 4)))
     out.append(("t1d-memctl", t1_desc(True, 512, 0x00, 2, [vary([2, 136, 16], 3)], 30)))
@@ -1001,7 +1054,7 @@ def mc_compute(pid, quick):
     need = {"C01": ["W_DoneLong", "W_DoneCap", "W_Rejected", "W_Crash", "W_SkipInside", "W_OddLock", "W_RoomEdge", "W_SelDone", "W_RetryDone", "W_SessionDone"],
             "C02": ["W_CutNew", "W_CutOld", "W_CutEmpty", "W_Straddle", "W_Mixture", "W_RetryCut", "W_FaultLen0", "W_InSector1"],
             "C03": ["W_SkipInside", "W_SkipAfter", "W_SkipBeyond", "W_FormatWipe", "W_Escape", "W_OddLock", "W_Mem256",
-                    "W_Exp2", "W_Exp3", "W_Exp4", "W_RoomEdge", "W_FaultSel", "W_SelDone"]}[pid]
+                    "W_Exp2", "W_Exp3", "W_Exp4", "W_RoomEdge", "W_FaultSel", "W_SelDone", "W_NonCanon"]}[pid]
     hit, _ = tlc.witnesses("MC_TlvTag.tla", "MC_TlvTag_%sw.cfg" % c, pid, need, timeout=600, workers=2)
     return cfg, r, need, hit
 
